@@ -132,13 +132,25 @@ def rand_value(rng, depth=0):
 RESERVED = {"_size", "_nrows", "_delim", "_shape", "_has_fields", "_dtype", "_version"}
 
 
+# a header read back from one file and reused to create another carries that file's own bookkeeping keys (stale values);
+# the format strips / overwrites exactly these spellings
+STALE_RESERVED = {"_DELIM": [",", " ", "\t"], "_delim": [","], "_SIZE": [12345], "_size": [3], "_NROWS": [7], "_nrows": [7],
+                  "_SHAPE": [(3,)], "_HAS_FIELDS": [True], "_DTYPE": [[("zz", "<i4"), ("yy", "|S3")]], "_VERSION": ["0.9"]}
+
+
 def rand_header(rng):
     m = int(rng.integers(0, 4))
     if m == 0:
         return None
     n = int(rng.integers(0 if m == 1 else 1, 6))
     keys = [HDR_KEYS[i] for i in rng.permutation(len(HDR_KEYS))[:n]]
-    return {k: (rand_value(rng) if m == 3 else rand_value(rng, depth=2)) for k in keys}
+    h = {k: (rand_value(rng) if m == 3 else rand_value(rng, depth=2)) for k in keys}
+    if rng.random() < .25:
+        sk = list(STALE_RESERVED)
+        for i in rng.permutation(len(sk))[: int(rng.integers(1, 4))]:
+            vals = STALE_RESERVED[sk[int(i)]]
+            h[sk[int(i)]] = vals[int(rng.integers(0, len(vals)))]
+    return h
 
 
 def user_items(header):
